@@ -333,7 +333,7 @@ func (m *Mux) fetch(pattern string, mount *node) (*node, []pathParam) {
 		}
 
 		if t[0] == pmark || t[0] == pwild {
-			if lt == 1 {
+			if lt == 1 && t[0] == pmark {
 				panic(invalidPattern)
 			}
 			if t[0] == pmark {
